@@ -5,40 +5,6 @@ namespace PolyVerif.Lemmas.CodonFreq
 open PolyVerif PolyVerif.Codon PolyVerif.CodonTables
 open PolyVerif.Spec.ValueTables (chunks3 countCodons)
 
-/-- every letter is a one-byte rune -/
-def Ascii (s : Str) : Prop := ∀ c ∈ s, c.val ≤ 127
-
-theorem toUpper_ascii (c : Char) (h : c.val ≤ 127) : c.toUpper.val ≤ 127 := by
-  unfold Char.toUpper
-  split
-  · next hh =>
-    obtain ⟨h1, h2⟩ := hh
-    rw [UInt32.le_iff_toNat_le] at h h1 h2 ⊢
-    show (c.val + ('A'.val - 'a'.val)).toNat ≤ _
-    rw [UInt32.toNat_add]
-    have : ('A'.val - 'a'.val).toNat = 4294967264 := by decide
-    rw [this]
-    have e1 : ('a'.val).toNat = 97 := by decide
-    have e2 : ('z'.val).toNat = 122 := by decide
-    have e3 : (127 : UInt32).toNat = 127 := by decide
-    omega
-  · exact h
-
-theorem upper_ascii {s : Str} (h : Ascii s) : Ascii (upper s) := by
-  intro c hc
-  simp only [upper, List.mem_map] at hc
-  obtain ⟨d, hd, rfl⟩ := hc
-  exact toUpper_ascii d (h d hd)
-
-theorem byteLen_ascii {s : Str} (h : Ascii s) : byteLen s = s.length := by
-  induction s with
-  | nil => rfl
-  | cons c rest ih =>
-    have hc : c.utf8Size = 1 := Char.utf8Size_eq_one_iff.2 (h c (by simp))
-    have := ih (fun d hd => h d (by simp [hd]))
-    simp only [byteLen, List.map_cons, List.sum_cons, List.length_cons] at *
-    omega
-
 /-! map facts -/
 
 theorem mapGet_of_not_has (m : FreqMap) (k : Str) (h : mapHas m k = false) : mapGet m k = 0 := by
@@ -103,53 +69,42 @@ theorem mapGet_bump (m : FreqMap) (cur c : Str) :
   · simpa using mapGet_init m cur c h
   · simpa using mapGet_incr m cur c h
 
-/-- loop invariant of getCodonFrequency on one-byte runes: with `buf` pending (fewer than 3 letters) -/
-theorem loop_counts (s : Str) : ∀ (buf : Str) (m : FreqMap) (c : Str), buf.length < 3 → Ascii buf → Ascii s →
-    mapGet (s.foldl freqStep (buf, m)).2 c = mapGet m c + ((chunks3 (buf ++ s)).count c : Nat) := by
+/-- loop invariant of getCodonFrequency: with `buf` pending (fewer than 3 letters, counted by the counter) -/
+theorem loop_counts (s : Str) : ∀ (buf : Str) (m : FreqMap) (c : Str), buf.length < 3 →
+    mapGet (s.foldl freqStep (buf, buf.length, m)).2.2 c = mapGet m c + ((chunks3 (buf ++ s)).count c : Nat) := by
   induction s with
   | nil =>
-    intro buf m c hb _ _
+    intro buf m c hb
     match buf, hb with
     | [], _ => simp [chunks3]
     | [_], _ => simp [chunks3]
     | [_, _], _ => simp [chunks3]
   | cons x rest ih =>
-    intro buf m c hb ab as
-    have ax : x.val ≤ 127 := as x (by simp)
-    have ar : Ascii rest := fun d hd => as d (by simp [hd])
-    have acur : Ascii (buf ++ [x]) := by
-      intro d hd
-      simp only [List.mem_append, List.mem_singleton] at hd
-      rcases hd with hd | rfl
-      · exact ab d hd
-      · exact ax
-    have hlen : byteLen (buf ++ [x]) = buf.length + 1 := by rw [byteLen_ascii acur]; simp
+    intro buf m c hb
     simp only [List.foldl_cons]
     match buf, hb with
     | [], _ =>
-      have : freqStep ([], m) x = ([x], m) := by
-        have : byteLen [x] = 1 := by simpa using hlen
-        simp [freqStep, this]
-      rw [this, ih [x] m c (by simp) (by simpa using acur) ar]
+      have : freqStep ([], ([] : Str).length, m) x = ([x], [x].length, m) := by simp [freqStep]
+      rw [this, ih [x] m c (by simp)]
       simp
     | [a], _ =>
-      have : freqStep ([a], m) x = ([a, x], m) := by
-        have : byteLen [a, x] = 2 := by simpa using hlen
-        simp [freqStep, this]
-      rw [this, ih [a, x] m c (by simp) (by simpa using acur) ar]
+      have : freqStep ([a], [a].length, m) x = ([a, x], [a, x].length, m) := by simp [freqStep]
+      rw [this, ih [a, x] m c (by simp)]
       simp
     | [a, b], _ =>
-      have e : freqStep ([a, b], m) x = ([], if mapHas m [a, b, x] then mapIncr m [a, b, x] else mapInit m [a, b, x]) := by
-        have : byteLen [a, b, x] = 3 := by simpa using hlen
-        simp only [freqStep, List.cons_append, List.nil_append, this, if_true]
+      have e : freqStep ([a, b], [a, b].length, m) x =
+          ([], ([] : Str).length, if mapHas m [a, b, x] then mapIncr m [a, b, x] else mapInit m [a, b, x]) := by
+        have h3 : ([a, b] : Str).length + 1 = 3 := rfl
+        simp only [freqStep, List.cons_append, List.nil_append, h3, if_true, List.length_nil]
         split <;> rfl
-      rw [e, ih [] _ c (by simp) (by intro d hd; simp at hd) ar, mapGet_bump]
+      rw [e, ih [] _ c (by simp), mapGet_bump]
       simp only [List.nil_append, List.cons_append, chunks3, List.count_cons, beq_iff_eq]
       split <;> simp <;> omega
 
-theorem freq_counts (s : Str) (hs : Ascii s) (c : Str) :
+/-- for EVERY sequence (any letters, any length): the map holds, under each key, the number of in-frame chunks equal to it -/
+theorem freq_counts (s : Str) (c : Str) :
     mapGet (getCodonFrequency s) c = ((chunks3 s).count c : Nat) := by
-  have := loop_counts s [] [] c (by simp) (by intro d hd; simp at hd) hs
+  have := loop_counts s [] [] c (by simp)
   simpa [getCodonFrequency, mapGet] using this
 
 /-! re-weighting keeps everything but the weights -/
